@@ -194,7 +194,22 @@ def c19_6(ctx):
                 typed = txt in ('()', '(%s,)' % v, 'tuple(%s)' % v, 'tuple(%s[0])' % v) or (txt == v and p.assumes('isinstance(%s, tuple)' % v, True))
             if not typed:
                 ctx.fail(f, p.node, '%s can return `%s`, which is not provably a %s on the path [%s]' % (name, U(e), tp, ' & '.join(p.cond_texts())))
-        # idempotence: the identity branch exists
+        # idempotence on every path: whenever the path conditions admit a value that already is a list (tuple), the value itself is returned
+        for p in paths(f.body):
+            if p.term != 'return':
+                continue
+            admits, exception = True, False
+            for txt, pol, e in p.atoms():
+                kind, keys = classify_test(e)
+                if kind == 'isinstance:' + v and (pol and tp not in keys or not pol and tp in keys):
+                    admits = False
+                if txt == NS('%s is None' % v) and pol:
+                    admits = False
+                if txt == 'isinstance(%s[0], list)' % v and pol and tp == 'tuple':
+                    exception = True      # documented: a 1-tuple holding a list stands for that list
+            ctx.count(1)
+            if admits and not exception and N(p.value) != v:
+                ctx.fail(f, p.node, '%s of a %s returns `%s` on the path [%s]: a value that already is a %s must be returned as is (idempotence)' % (name, tp, U(p.value), ' & '.join(p.cond_texts()), tp))
         ident = [p for p in paths(f.body) if p.term == 'return' and N(p.value) == v and p.assumes('isinstance(%s, %s)' % (v, tp), True)]
         ctx.count(1)
         if not ident:
